@@ -401,4 +401,37 @@ theorem std_bins_range {R : ℝ} (hR : 0 ≤ R) (lats lons : List ℝ) :
   · positivity
   · linarith
 
+/-! ### kriging of lat-lon (+ time) data through `isometrize` -/
+
+/-- without time the assembled entry is the chord entry (hence the Yadrenko covariance) -/
+theorem krigeEntryLL_spatial (cov : ℝ → ℝ) (R : ℝ) (anis : List ℝ) (lat lon t : ℕ → ℝ) (i j : ℕ) :
+    krigeEntryLL cov R false anis lat lon t i j = krigeEntry cov R lat lon i j := by
+  simp [krigeEntryLL, krigeEntry, isometrizeLL, distSq, P3.toList, chord, P3.normSq, P3.sub]
+
+/-- with time: `cov(√(chord² + (Δt / anis[-1])²))`, `chord² = 4R²·a` — the time difference enters only through
+    the last anisotropy ratio, the spatial part only through the great-circle geometry -/
+theorem krigeEntryLL_temporal (cov : ℝ → ℝ) (R a b c : ℝ) (lat lon t : ℕ → ℝ) (i j : ℕ) :
+    krigeEntryLL cov R true (modelAnis true [a, b, c]) lat lon t i j
+      = cov (Real.sqrt (4 * (R * R) * havArg (lat i) (lon i) (lat j) (lon j)
+          + (t i / c - t j / c) * (t i / c - t j / c))) := by
+  unfold krigeEntryLL
+  rw [time_axis_latlon, time_axis_latlon, ← chord_is_haversine]
+  simp [distSq, P3.toList, P3.normSq, P3.sub]
+
+/-- any quantity computed from the covariance block and the right-hand side (weights, estimate, variance of
+    simple / ordinary kriging) is unchanged when all points and targets are moved by a distance-preserving map -/
+theorem krige_result_rotation_invariant {β : Type} (F : (ℕ → ℕ → ℝ) → (ℕ → ℝ) → β)
+    (cov : ℝ → ℝ) (R : ℝ) (Q : P3 ℝ → P3 ℝ)
+    (hQ : ∀ p q, P3.normSq (P3.sub (Q p) (Q q)) = P3.normSq (P3.sub p q))
+    (lat lon lat' lon' : ℕ → ℝ) (tlat tlon tlat' tlon' : ℝ)
+    (h : ∀ i, latlon2pos R (lat' i) (lon' i) = Q (latlon2pos R (lat i) (lon i)))
+    (ht : latlon2pos R tlat' tlon' = Q (latlon2pos R tlat tlon)) :
+    F (krigeEntry cov R lat' lon') (krigeRhs cov R lat' lon' tlat' tlon')
+      = F (krigeEntry cov R lat lon) (krigeRhs cov R lat lon tlat tlon) := by
+  have h1 : krigeEntry cov R lat' lon' = krigeEntry cov R lat lon := by
+    funext i j; exact sphere_rotation_invariant cov R Q hQ lat lon lat' lon' h i j
+  have h2 : krigeRhs cov R lat' lon' tlat' tlon' = krigeRhs cov R lat lon tlat tlon := by
+    funext i; exact sphere_rotation_invariant_rhs cov R Q hQ lat lon lat' lon' tlat tlon tlat' tlon' h ht i
+  rw [h1, h2]
+
 end GSV.Props.C13
